@@ -54,6 +54,7 @@ inductive Op
   | relock          -- Lock, Unlock
   | lock            -- Lock (bip44 wallets keep deriving addresses while locked; GuardUpdate for the others)
   | unlock          -- Unlock (bip44: the secrets of addresses derived while locked are filled in)
+  | scanFail (n : Nat)   -- ScanAddresses whose transaction finder returns an error: no effect
 
 def apply (step : Seed → Seed × Key) (w : DW Seed Key) : Op → DW Seed Key
   | .gen n => generate step w n
@@ -62,6 +63,7 @@ def apply (step : Seed → Seed × Key) (w : DW Seed Key) : Op → DW Seed Key
   | .relock => w
   | .lock => w
   | .unlock => w
+  | .scanFail _ => w
 
 def run (step : Seed → Seed × Key) (seed : Seed) (ops : List Op) : DW Seed Key :=
   ops.foldl (apply step) (DW.init seed)
@@ -89,6 +91,7 @@ def capply (child : Nat → Pub) (w : CW Pub) : Op → CW Pub
   | .relock => w
   | .lock => w
   | .unlock => w
+  | .scanFail _ => w
 
 def crun (child : Nat → Pub) (ops : List Op) : CW Pub := ops.foldl (capply child) ⟨[]⟩
 
